@@ -14,7 +14,7 @@ import (
 )
 
 func init() {
-	for _, id := range []string{"C01", "C02", "C03", "C04", "C05", "C06", "C09", "C10", "C13"} {
+	for _, id := range []string{"C01", "C02", "C03", "C04", "C05", "C06", "C08", "C09", "C10", "C13"} {
 		id := id
 		core.Register(id, "model_checking", func(c *core.Ctx) error { return runTL1(c, id) })
 	}
@@ -84,6 +84,7 @@ type valPayload struct {
 	M      string `json:"m"`
 	Bad    bool   `json:"bad"`
 	Accept bool   `json:"accept"`
+	Dec2OK bool   `json:"dec2ok"`
 	From   *encs  `json:"from"`
 	To     *encs  `json:"to"`
 	Boxed  bool   `json:"boxed"`
@@ -126,6 +127,10 @@ func runTL1(c *core.Ctx, prop string) error {
 	if prop == "C13" {
 		k, kre = c.Pick(2, 3), c.Pick(3, 4)
 	}
+	kmut2 := 0
+	if prop == "C08" {
+		k, kmut, kmut2 = 1, 2, 2
+	}
 	if prop == "C02" {
 		k, kmut = c.Pick(1, 2), c.Pick(2, 3)
 	}
@@ -133,7 +138,11 @@ func runTL1(c *core.Ctx, prop string) error {
 		k, kjson = c.Pick(2, 3), c.Pick(3, 4)
 	}
 	for _, cp := range corpora {
-		if err := runCorpusTL1(c, prop, cp, k, kmut, kjson, kre); err != nil {
+		if prop == "C08" {
+			cp.Sanity = true // the allocation clause is about generated code with length sanity checks enabled
+			cp.Name += "-sane"
+		}
+		if err := runCorpusTL1(c, prop, cp, k, kmut, kjson, kre, kmut2); err != nil {
 			return err
 		}
 	}
@@ -142,7 +151,7 @@ func runTL1(c *core.Ctx, prop string) error {
 	return nil
 }
 
-func runCorpusTL1(c *core.Ctx, prop string, cp Corpus, k, kmut, kjson, kre int) error {
+func runCorpusTL1(c *core.Ctx, prop string, cp Corpus, k, kmut, kjson, kre, kmut2 int) error {
 	b, err := Build(c, cp)
 	if err != nil {
 		return err
@@ -173,6 +182,16 @@ func runCorpusTL1(c *core.Ctx, prop string, cp Corpus, k, kmut, kjson, kre int) 
 		var p valPayload
 		if err := json.Unmarshal(raw, &p); err != nil {
 			firstErr = err
+			return
+		}
+		if prop == "C08" {
+			total08(c, b, cp, &p, &firstErr)
+			switch p.Kind {
+			case "val":
+				nVal++
+			case "bytes", "bytes2":
+				nBytes++
+			}
 			return
 		}
 		if p.Kind == "val" {
@@ -218,6 +237,16 @@ func runCorpusTL1(c *core.Ctx, prop string, cp Corpus, k, kmut, kjson, kre int) 
 			}
 			if nEdge%499 == 1 {
 				c.Sample(map[string]any{"corpus": cp.Name, "type": p.Tn, "history": "decode " + hexs(p.From.TL1) + " then " + hexs(p.To.TL1) + " into one object"})
+			}
+			return
+		}
+		if prop == "C08" {
+			total08(c, b, cp, &p, &firstErr)
+			switch p.Kind {
+			case "val":
+				nVal++
+			case "bytes", "bytes2":
+				nBytes++
 			}
 			return
 		}
@@ -327,7 +356,7 @@ func runCorpusTL1(c *core.Ctx, prop string, cp Corpus, k, kmut, kjson, kre int) 
 	res, err := c.TLC(core.TLCOpts{Module: "MC_Codec", Cfg: "MC_Codec.cfg", Workers: 8, Timeout: 20 * time.Minute,
 		Files:  map[string][]byte{"SchemaData.tla": b.SchemaModule(tops)},
 		OnEmit: onEmit,
-		Consts: map[string]string{"SANITY": tlaBool(cp.Sanity), "MAXLEN": "2", "LONGSTR": "{}", "K": strconv.Itoa(k), "KMUT": strconv.Itoa(kmut), "KJSON": strconv.Itoa(kjson), "KRE": strconv.Itoa(kre), "EDGES": tlaBool(prop == "C09")}})
+		Consts: map[string]string{"SANITY": tlaBool(cp.Sanity), "MAXLEN": "2", "LONGSTR": "{}", "K": strconv.Itoa(k), "KMUT": strconv.Itoa(kmut), "KJSON": strconv.Itoa(kjson), "KRE": strconv.Itoa(kre), "KMUT2": strconv.Itoa(kmut2), "EDGES": tlaBool(prop == "C09")}})
 	if err != nil {
 		return err
 	}
@@ -351,7 +380,10 @@ func runCorpusTL1(c *core.Ctx, prop string, cp Corpus, k, kmut, kjson, kre int) 
 	c.Add("impl_rejected", rej)
 	c.Add("outside_model", unk)
 	c.Add("traces_validated_against_impl", 0)
-	if prop == "C02" && (acc == 0 || rej == 0) {
+	if prop == "C08" {
+		acc, rej = c.Get("c08_accepted"), c.Get("c08_rejected")
+	}
+	if (prop == "C02" || prop == "C08") && (acc == 0 || rej == 0) {
 		return fmt.Errorf("vacuous mutation run on %s: accepted=%d rejected=%d", cp.Name, acc, rej)
 	}
 	return nil
@@ -379,6 +411,7 @@ var classOf = map[string]map[string]bool{
 	"C04": {"conv": true},
 	"C05": {"json": true},
 	"C06": {"jsonalt": true},
+	"C08": {"total": true},
 	"C09": {"reuse": true},
 	"C10": {"bytesvar": true},
 	"C13": {"reenc": true},
@@ -727,4 +760,76 @@ func negKey(p *valPayload, f finding) string {
 		return "negative-zero-float"
 	}
 	return f.key
+}
+
+// allocation allowed for reading an input of n bytes with length sanity checks on
+func allocBound(n int) uint64 { return 1<<20 + 8192*uint64(n) }
+
+// total08 (C08): every reader returns normally on every stimulus derived from the model:
+// no panic, no hang (watchdog), and with sanity checks on no allocation out of proportion.
+func total08(c *core.Ctx, b *Built, cp Corpus, p *valPayload, firstErr *error) {
+	run := func(what string, n int, step map[string]any) {
+		r, err := b.script(p.Tn, c.Get("evaluations")%2 == 1 && cp.BytesVers != "", step)
+		c.Add("evaluations", 1)
+		key := fmt.Sprintf("total/%s/%s/%s", cp.Name, p.Tn, what)
+		if err != nil {
+			// dead or hung driver: reproduce once in the restarted process before reporting
+			if _, err2 := b.script(p.Tn, false, step); err2 != nil {
+				c.Violate(key+"/no-return", fmt.Sprintf("reader does not return normally on %s: %v", what, oneLine(err2.Error(), 300)), map[string]any{"corpus": cp, "step": step, "type": p.Tn})
+			}
+			return
+		}
+		s := r.Steps[0]
+		if s.Panic != "" {
+			c.Violate(key+"/panic", fmt.Sprintf("reader panics on %s: %s", what, s.Panic), map[string]any{"corpus": cp, "step": step, "type": p.Tn})
+		}
+		if cp.Sanity && s.Alloc > allocBound(n) {
+			c.Violate(key+"/alloc", fmt.Sprintf("reader allocated %d bytes for an input of %d bytes (%s)", s.Alloc, n, what), map[string]any{"corpus": cp, "step": step, "type": p.Tn})
+		}
+		if s.Alloc > uint64(c.Get("max_alloc_seen")) {
+			c.Set("max_alloc_seen", int(s.Alloc))
+		}
+		if s.Err == "" {
+			c.Add("c08_accepted", 1)
+		} else {
+			c.Add("c08_rejected", 1)
+		}
+	}
+	switch p.Kind {
+	case "bytes":
+		if p.Dec.Unk && !cp.Sanity {
+			return // without the sanity rule the reader may legitimately allocate what the count announces
+		}
+		op := "read1"
+		if p.Boxed {
+			op = "read1b"
+		}
+		run(op+"/"+hexs(p.B), len(p.B), map[string]any{"op": op, "in": p.B})
+	case "bytes2":
+		run("read2/"+hexs(p.B), len(p.B), map[string]any{"op": "read2", "in": p.B})
+	case "val":
+		if p.JSON == nil {
+			return
+		}
+		var sb strings.Builder
+		if p.JSON.Render(&sb) != nil {
+			return
+		}
+		text := sb.String()
+		var muts []string
+		for i := 0; i < len(text); i++ {
+			muts = append(muts, text[:i])
+		}
+		for i := 0; i < len(text); i++ {
+			for _, ch := range []string{"{", "}", "[", "]", "\"", ",", ":", "9", "e", "-", "\\", "\x00", "n"} {
+				if (i*7+len(ch)+int(c.Seed))%5 == 0 { // a deterministic sample of single-character replacements
+					muts = append(muts, text[:i]+ch+text[i+1:])
+				}
+			}
+		}
+		muts = append(muts, strings.Repeat("[", 3000), strings.Repeat(`{"a":`, 2000), text+text, "1e999999", `"`+strings.Repeat("\\u12", 50))
+		for _, m := range muts {
+			run("readj/"+m, len(m), map[string]any{"op": "readj", "text": m})
+		}
+	}
 }
